@@ -393,7 +393,18 @@ class SQLLineageHolder(ColumnLineageMixin):
                     ],
                     key=lambda e: e[2].get(EdgeTag.INDEX, 0),
                 ):
-                    g = nx.relabel_nodes(g, {table_old: table_new})
+                    mapping: dict = {table_old: table_new}
+                    for col in [
+                        n
+                        for n in g.nodes
+                        if isinstance(n, Column) and n.parent == table_old
+                    ]:
+                        # columns follow their table, otherwise column lineage refers to a table that is gone
+                        col_new = Column(col.raw_name)
+                        col_new.raw_name = col.raw_name
+                        col_new.parent = table_new
+                        mapping[col] = col_new
+                    g = nx.relabel_nodes(g, mapping)
                     if g.has_node(table_new) and g.degree[table_new] == 0:
                         g.remove_node(table_new)
                 continue
